@@ -56,6 +56,24 @@ CHECKS = {
         "Trusts vlib/model.py and sympy; 0-d results only with float storage; bounds <= 4 dims, <= 4 items.",
         "DESIGN.md C07",
     ),
+    "C13": (
+        "exploration",
+        "model-based history generation (Hypothesis step lists) with a shape invariant and snapshot atomicity after every step",
+        "Histories of up to 25 (thorough 50) steps over a pool of arrays and stocks mix 39 kinds of well-formed and deliberately "
+        "ill-formed public calls; after every step every reachable array must have values.shape == dims.shape over distinct "
+        "letters, ill-formed calls must raise, and any raising step must leave every snapshot unchanged.",
+        "Validity of each step is decided by construction in props/c13_shape.py; direct attribute overwrites are excluded as the property says.",
+        "DESIGN.md C13",
+    ),
+    "C15": (
+        "exploration",
+        "operation catalogue x Hypothesis-generated arrays with deep input snapshots and bidirectional write-through probes",
+        "40 public non-in-place operations are run on generated arrays; all inputs are snapshotted before/after, and every result "
+        "the statement lists as independent is probed by writing a sentinel into its values and editing its dims in place (and the "
+        "reverse direction).",
+        "Snapshot = value bytes + dims letters/names/items; reductions' results are only checked for input purity, as the statement lists.",
+        "DESIGN.md C15",
+    ),
     "C14": (
         "exploration",
         "exhaustive pair enumeration + generated operation histories (Hypothesis) against an ordered-list model",
